@@ -21,34 +21,7 @@
 #include "arena.hpp"
 #include "chooser.hpp"
 
-#ifdef SIM_TSAN
-extern "C" {
-void AnnotateIgnoreReadsBegin(const char *f, int l);
-void AnnotateIgnoreReadsEnd(const char *f, int l);
-void AnnotateIgnoreWritesBegin(const char *f, int l);
-void AnnotateIgnoreWritesEnd(const char *f, int l);
-void __tsan_acquire(void *addr);
-void __tsan_release(void *addr);
-}
-#  define SIM_TSAN_ACQUIRE(p) __tsan_acquire((void*) (p))
-#  define SIM_TSAN_RELEASE(p) __tsan_release((void*) (p))
-#  define SIM_MO_STORE std::memory_order_relaxed
-#  define SIM_MO_LOAD std::memory_order_relaxed
-#else
-#  define SIM_TSAN_ACQUIRE(p) ((void) 0)
-#  define SIM_TSAN_RELEASE(p) ((void) 0)
-#  define SIM_MO_STORE std::memory_order_release
-#  define SIM_MO_LOAD std::memory_order_acquire
-#endif
-
 namespace sim {
-
-struct IgnoreGuard {
-#ifdef SIM_TSAN
-    IgnoreGuard() { AnnotateIgnoreReadsBegin(__FILE__, __LINE__); AnnotateIgnoreWritesBegin(__FILE__, __LINE__); }
-    ~IgnoreGuard() { AnnotateIgnoreWritesEnd(__FILE__, __LINE__); AnnotateIgnoreReadsEnd(__FILE__, __LINE__); }
-#endif
-};
 
 // one simulated operating-system process (an MPI rank, or the single process of a TBB run)
 struct ProcCtx {
@@ -85,7 +58,7 @@ struct SimThread {
 
 class Sched {
 public:
-    static Sched& get() { static Sched s; return s; }
+    static Sched& get() { static Sched *s = new Sched(); return *s; }   // never destroyed: pool threads outlive main
 
     // the calling (main) thread becomes simulator thread 0 of a new run
     void begin_run(Chooser *c, uint64_t budget) {
